@@ -19,3 +19,48 @@ def script_of(sc):
 
 def has_op(sc, names):
     return any(o in names for o in ops_of(sc))
+
+
+def conn_stress(rng, count, tag="conn-stress"):
+    """ref_count() / replay() used the way applications do: the connectable's Observable taken ONCE and subscribed several times (a
+    shared handle: defs + ref) or taken anew for every subscriber; over a plain Subject, a BehaviorSubject (which emits inside the
+    connect and stays open) or a cold source (complete / error / silent, i.e. emitting inside the connect); subscribers attached
+    directly or through take(1) / take(2) / first / retry(2) / map, leaving during the connect, re-subscribing from inside the
+    terminal (retry), overlapping, leaving in any order; pushes and a failure of the hot source in between and afterwards"""
+    import scen
+    from scen import C, e, n, op, scn, src, sub
+    out = []
+    for _ in range(count):
+        kind = rng.choice(["refcount", "refcount", "replay", "replay"])
+        srck = rng.choice(["subject", "subject", "behavior", "cold"])
+        base = ["cold", 0] if srck == "cold" else ["hot", 0]
+        shared = rng.choice([base, base, op("map", [["add", 1]], base), op("tap", [0], base)])
+        handle = rng.random() < 0.5
+        access = ["ref", 0] if handle else ["conn", 0]
+        nsub = rng.choice([1, 2, 2, 3])
+        acts, alive = [], []
+        nxt = 0
+        steps = rng.randrange(3, 9)
+        for _s in range(steps):
+            r = rng.random()
+            if nxt < nsub and (r < 0.4 or not acts):
+                via = rng.choice([None, None, ("take", [1]), ("take", [2]), ("first", []), ("retry", [2]), ("map", [["add", 0]])])
+                acts.append(sub(nxt, access if via is None else op(via[0], via[1], access)))
+                alive.append(nxt)
+                nxt += 1
+            elif alive and r < 0.6:
+                u = alive.pop(rng.randrange(len(alive)))
+                acts.append(["unsub", u])
+            elif srck != "cold":
+                acts.append(["emit", 0, rng.choice([n(1), n(2), n(3), n(2), e(4), C] if rng.random() < 0.25 else [n(1), n(2), n(3)])])
+        if rng.random() < 0.7:
+            for u in alive:
+                acts.append(["unsub", u])
+            if srck != "cold":
+                acts.append(["emit", 0, n(rng.choice([1, 2, 3]))])
+        xs = [rng.choice([1, 2, 3]) for _ in range(rng.randrange(0, 4))]
+        s0 = scen.script(xs, rng.choice(["c", ("e", 5), "s", "s"]))
+        subjects = [["behavior", 0]] if srck == "behavior" else [["subject"]]
+        out.append((scn(srcs=[src([s0, s0, s0, s0], False)], subjects=subjects, conns=[[kind, shared]], handles=nsub, script_=acts, defs=[["conn", 0]] if handle else []),
+                    {"k": tag}))
+    return out
